@@ -410,6 +410,27 @@ func c01TextJoins(f *ssa.Function) []*ssa.Call {
 					walk(sv, d+1)
 				}
 			}
+			// the text is kept in a field before it is returned (`w.last = strings.Join(..); return w.last`): what
+			// the function stores into that field (round 4: whether returning the remembered text is legitimate is
+			// C01.S1's business; M1 only asks that every text made here is made from a sorted list)
+			if g, ok := x.X.(*ssa.Global); ok && x.Op == token.MUL {
+				for _, st := range gGlobalStores[g] {
+					if st.Parent() == x.Parent() {
+						walk(st.Val, d+1)
+					}
+				}
+			}
+			if fa, ok := x.X.(*ssa.FieldAddr); ok && x.Op == token.MUL {
+				eachInstr(x.Parent(), func(i ssa.Instruction) {
+					st, isSt := i.(*ssa.Store)
+					if !isSt {
+						return
+					}
+					if fb, isF := st.Addr.(*ssa.FieldAddr); isF && fb.Field == fa.Field && types.Identical(fb.X.Type(), fa.X.Type()) {
+						walk(st.Val, d+1)
+					}
+				})
+			}
 		case *ssa.BinOp:
 			if x.Op == token.ADD {
 				walk(x.X, d+1)
